@@ -17,6 +17,7 @@ RULE = ("operators: Pauli strings with <=3 factors on indices {0,7,12,123} x coe
         "coefficient map (Pauli strings are linearly independent), exact for simplified operators. Artefacts: measurement sets, expectation values (real/complex, "
         "0/1/2 frames), parities, value estimates (precision None/float/numpy), lists, layers, connectivity, ordering, measurement-count estimates, each through "
         "its own save/load with a path and (where accepted) an open file. non-trivial = operator with a non-real or non-unit coefficient or >= 2 terms / artefact with content")
+RULE += " Round 7: every save goes to a path that already holds a LONGER artefact of the same kind; expectation values / parities through pathlib.Path, bytes paths and relative names starting with a tilde."
 RULE += " Round 5: 3-5 distinct correlation frames; loaded measurement sets answer get_counts like the saved ones; layers / connectivity not in ascending order; a term's coefficient reassigned between serialisations."
 ASSUMPTIONS = ["|coefficient| < 1e15 (the printed form of larger floats contains '+')", "absent and empty correlation/covariance lists are the same zero-frame case"]
 BOUNDS = {"quick": {"strings": "<=4 factors", "sum_terms": "3 over 13 pool terms, 4 over 6"}, "thorough": {"strings": "<=4 factors", "sum_terms": "4 over 13 pool terms, 5 over 6"}}
@@ -94,6 +95,11 @@ def operator_case(case):
     wd = scratch()
     try:
         p = os.path.join(wd, "op.json")
+        # a LONGER operator file saved earlier under the same name (the previous, larger result of a sweep): saving replaces it
+        big = O.convert_dict_to_op({"terms": [{"pauli_ops": [{"qubit": q_, "op": "XYZ"[q_ % 3]} for q_ in range(j_, j_ + 3)], "coefficient": {"real": 0.123456789 + j_, "imag": -0.5}} for j_ in range(12)]}) if False else None
+        from orquestra.quantum.operators import PauliSum as _PS, PauliTerm as _PT
+        big = _PS([_PT({q_: "XYZ"[(q_ + j_) % 3] for q_ in range(j_, j_ + 3)}, 0.123456789 + j_ - 0.5j) for j_ in range(12)])
+        O.save_operator(big, p)
         O.save_operator(op, p)
         outs.append(("save/load path", O.load_operator(p)))
         with open(p) as f:
@@ -101,6 +107,7 @@ def operator_case(case):
         q = os.path.join(wd, "ops.json")
         from orquestra.quantum.operators import PauliSum
         sset = [op if isinstance(op, PauliSum) else PauliSum([op]), PauliSum(), PauliSum([mk_term([["c", 1, 2], {"7": "Y"}])])]
+        O.save_operator_set([big, big, big, big, big], q)      # a longer list saved earlier under the same name
         O.save_operator_set(sset, q)
         back = O.load_operator_set(q)
         with open(q) as f:
@@ -193,10 +200,27 @@ def frames_equal(a, b):
     return len(a) == len(b) and all(arrays_equal(x, y) for x, y in zip(a, b))
 
 
-def with_loaders(wd, name, save, load, open_file=True):
+def with_loaders(wd, name, save, load, open_file=True, path_kinds=False):
     p = os.path.join(wd, name)
+    # an artefact saved EARLIER under the same name and longer than this one (a previous, larger result): saving replaces it
+    with open(p, "w") as f0:
+        f0.write("{" + " " * 4000 + '"stale": [' + ", ".join(["1.0"] * 400) + "]}")
     save(p)
     outs = [("path", load(p))]
+    if path_kinds:
+        # the same file named as a pathlib.Path, as bytes, and by a RELATIVE name that starts with a tilde (a legal file name, not a home directory)
+        import pathlib
+        outs.append(("pathlib.Path", load(pathlib.Path(p))))
+        outs.append(("bytes path", load(os.fsencode(p))))
+        cwd = os.getcwd()
+        try:
+            os.chdir(wd)
+            save("~" + name)
+            outs.append(("relative name starting with ~", load("~" + name)))
+            save(pathlib.Path("sub_" + name))
+            outs.append(("relative pathlib.Path", load(pathlib.Path("sub_" + name))))
+        finally:
+            os.chdir(cwd)
     if open_file:
         with open(p) as f:
             outs.append(("open file", load(f)))
@@ -232,7 +256,7 @@ def artefact_case(case):
             cor = [arr(x) for x in case["cor"]] if case["cor"] is not None else None
             cov = [arr(x) for x in case["cov"]] if case["cov"] is not None else None
             ev = M.ExpectationValues(vals, cor, cov)
-            outs = with_loaders(wd, "e.json", lambda p: M.save_expectation_values(ev, p), M.load_expectation_values)
+            outs = with_loaders(wd, "e.json", lambda p: M.save_expectation_values(ev, p), M.load_expectation_values, path_kinds=True)
             for nm, got in outs:
                 if not arrays_equal(got.values, vals) or not frames_equal(got.correlations, cor) or not frames_equal(got.estimator_covariances, cov):
                     return {"ok": False, "msg": "expectation values (%s): values / correlations / covariances changed" % nm,
@@ -243,7 +267,7 @@ def artefact_case(case):
             vals = arr(case["values"])
             cor = [arr(x) for x in case["cor"]] if case["cor"] is not None else None
             pa = M.Parities(vals, cor)
-            outs = with_loaders(wd, "p.json", lambda p: M.save_parities(pa, p), M.load_parities)
+            outs = with_loaders(wd, "p.json", lambda p: M.save_parities(pa, p), M.load_parities, path_kinds=True)
             for nm, got in outs:
                 if not arrays_equal(got.values, vals) or not frames_equal(got.correlations, cor):
                     return {"ok": False, "msg": "parities (%s): tallies changed" % nm, "sig": "parities"}
